@@ -8,6 +8,8 @@ CONSTANTS
   SimpN = 40
   RuleN = 0
   HistN = 12
+  CoefN = 12
+  EqN = 0
 INIT Init
 NEXT Next
 INVARIANT Export
